@@ -111,6 +111,11 @@ func runFileCase(c *core.Case, spec fileCaseSpec) *core.Result {
 		// big transactions: give the simulated device enough room
 		cfg.DiskCap = 32 << 20
 	}
+	if c.Tier == "thorough" && cfg.MaxPages == 0 && cfg.DiskCap < 16<<20 {
+		// long histories on unbounded files outgrow the small device (an
+		// environment limit that only yields inconclusive cases)
+		cfg.DiskCap = 16 << 20
+	}
 	w := NewWorld(cfg, spec.mon, r, res)
 	w.TraceOn = c.Verbose
 	var g *gate
